@@ -148,7 +148,7 @@ impl Solo {
     fn name(s: &SoloState, lock: usize) -> String {
         match s.names.get(&lock) {
             Some(k) => format!("node{k}"),
-            None => "lock?".to_string(),
+            None => "global-lock".to_string(),
         }
     }
 }
@@ -354,7 +354,7 @@ impl Sched {
     fn lname(st: &St, lock: usize) -> String {
         match st.names.get(&lock) {
             Some(k) => format!("node{k}"),
-            None => "lock?".into(),
+            None => "global-lock".into(),
         }
     }
 
@@ -431,8 +431,11 @@ impl Sched {
                     None
                 }
                 None => {
-                    // trace exhausted: continue with the lowest enabled task
-                    Some(cands[0])
+                    // trace exhausted: no further preemption
+                    match st.last {
+                        Some(l) if cands.contains(&l) => Some(l),
+                        _ => Some(cands[0]),
+                    }
                 }
             };
         }
